@@ -253,6 +253,11 @@ def run(c, facts):
     c.shared(R4, c08.r3_eager, 'C08.R3', facts)
     c.run(r5_name_agree, facts)
     c.run(r6_enum_map, facts)
+    c.run(r7_fallback_order, facts)
+    c.run(r8_ref_transparent, facts)
+    import c10
+    R9 = c.rule('C02.R9', 'JOIN-AGREE: an import binds to the module that was loaded for it (shared with C10.R5)')
+    c.shared(R9, c10.r5_join_agree, 'C10.R5', facts)
 
 
 # ------------------------------------------------------------------------------------------- R5 NAME-AGREE
@@ -462,3 +467,127 @@ def r6_enum_map(c, facts):
             c.ok(R, {'table': q.split('::')[-1], 'to': kind})
         else:
             c.bad(R, '%s:%s' % (q.split('::')[-1], ','.join(got)), '%s builds %s instead of %s' % (q, got, kind))
+
+
+# ------------------------------------------------------------------------------------------- R7 FALLBACK-ORDER
+# frozen: which source wins when two places can supply one document field (the language's precedence), as an ordered chain
+FALLBACKS = [
+    ('oal_openapi::Builder::object_type', 'required', ['Property.required', 'Schema.required'], 'an explicit ?/! mark on the property overrides `required` on its type'),
+    ('oal_openapi::Builder::content_examples', 'examples', ['Content.examples', 'Schema.examples'], 'examples on the content override examples on its schema'),
+    ('oal_openapi::Builder::relation_path_item', 'summary', ['Transfer.summary', 'Transfer.desc'], 'summary, else description, else the operation id'),
+    ('oal_openapi::Builder::string_schema', 'example', ['PrimString.example', 'PrimString.enumeration'], 'an explicit example overrides the first enumeration value'),
+]
+
+
+def or_chains(facts, fn):
+    """ordered source lists of Option::or / or_else chains in fn and its closures: [[spec fields in order], ...]"""
+    chains = []
+    fam = [fn] + facts.closures_of(fn)
+    for f2 in fam:
+        idx = MF.defs_index(f2)
+        for b, t in f2.calls():
+            info = callee_of(t)
+            if not info:
+                continue
+            nm = P.strip(info['def']).split('::')[-1]
+            if nm not in ('or', 'or_else'):
+                continue
+            first = sorted('%s.%s' % x for x in spec_sources(f2, t['args'][0], idx))
+            second = []
+            a1 = t['args'][1]
+            if nm == 'or':
+                second = sorted('%s.%s' % x for x in spec_sources(f2, a1, idx))
+            else:
+                # closure argument: the spec fields read inside that closure
+                for rv_l in MF.slice_back(f2, a1['l'], idx, through_calls=False)['aggrs'] if 'l' in a1 else []:
+                    rv = rv_l[0]
+                    if rv.get('ak') == 'closure':
+                        cl = facts.fns.get(rv['closure_id'])
+                        if cl is not None:
+                            for place, is_w in operand_places(cl):
+                                for o, n in place_fields(place)[-1:]:
+                                    second.append('%s.%s' % (o, n))
+                            for c3 in facts.closures_of(cl):
+                                for place, is_w in operand_places(c3):
+                                    for o, n in place_fields(place)[-1:]:
+                                        second.append('%s.%s' % (o, n))
+            chains.append((first, sorted(set(second))))
+    return chains
+
+
+def r7_fallback_order(c, facts):
+    R = c.rule('C02.R7', 'FALLBACK-ORDER: when two places can supply one document field, the language\'s precedence is kept')
+    for q, fld, want, why in FALLBACKS:
+        fn = facts.fn(q)
+        if fn is None:
+            c.bad(R, 'anchor-missing:' + q, '%s not found' % q)
+            continue
+        chains = or_chains(facts, fn)
+        hit = [ch for ch in chains if want[0] in ch[0] and want[1] in ch[1]]
+        rev = [ch for ch in chains if want[1] in ch[0] and want[0] in ch[1]]
+        inst = {'fn': q, 'field': fld, 'precedence': want, 'why': why}
+        if hit:
+            c.ok(R, inst)
+        elif rev:
+            c.bad(R, '%s:%s:precedence-reversed' % (q.split('::')[-1], fld), '%s: %s now takes precedence over %s for `%s` (%s)' % (q, want[1], want[0], fld, why), **inst)
+        else:
+            c.bad(R, '%s:%s:precedence-chain-missing' % (q.split('::')[-1], fld), '%s no longer decides `%s` with %s first and %s as fallback (%s)' % (q, fld, want[0], want[1], why), **inst)
+
+
+# ------------------------------------------------------------------------------------------- R8 REF-TRANSPARENT
+def selected_branch(it, e, v, env, depth=0):
+    """the leaf expression a cast evaluates for Expr variant v (None when not decidable)"""
+    from absint import TRUE, FALSE
+    if e is None or depth > 12:
+        return None
+    k = e['k']
+    if k == 'block':
+        for st in e['stmts']:
+            if st['k'] == 'local' and st['init'] is not None and it.is_tracked(st['init'], env) and st['pat']['k'] == 'bind':
+                env[st['pat']['hid']] = 'TRACKED'
+        return selected_branch(it, e['expr'], v, env, depth + 1) if e['expr'] is not None else None
+    if k == 'if':
+        t = it.truth(e['cond'], v, env)
+        if t == TRUE:
+            return selected_branch(it, e['then'], v, env, depth + 1)
+        if t == FALSE:
+            return selected_branch(it, e['else'], v, env, depth + 1) if e['else'] else None
+        return None
+    if k == 'match' and e['src'] == 'Normal' and it.is_tracked(e['scrut'], env):
+        for a in e['arms']:
+            m = it.pat_matches(a['pat'], v)
+            if m == TRUE and a['guard'] is None:
+                return selected_branch(it, a['body'], v, dict(env), depth + 1)
+            if m != FALSE:
+                return None
+        return None
+    return e
+
+
+def r8_ref_transparent(c, facts, rule='C02.R8'):
+    from absint import Interp
+    from facts import hir_walk, callee_id
+    R = c.rule(rule, 'REF-TRANSPARENT: a named reference is transparent to every cast (cast(Reference(_, v)) = cast(v)), so naming a value with @ keeps its operations and attributes')
+    it = Interp(facts, 'Expr')
+    n = 0
+    for q, l in sorted(facts.by_qname.items()):
+        if not q.startswith('oal_compiler::eval::cast_') or '{closure' in q:
+            continue
+        fn = l[0]
+        name = q.split('::')[-1]
+        if name in ('cast_schema', 'cast_content', 'cast_ranges'):
+            continue      # a reference to a schema is emitted as a $ref by design
+        env = {}
+        it.mark(fn.hir['params'][0], env)
+        leaf = selected_branch(it, fn.hir['body'], 'Reference', env)
+        n += 1
+        if leaf is None:
+            c.skip(R, q, 'branch taken for Expr::Reference not decidable')
+            continue
+        selfcall = any(e['k'] == 'call' and callee_id(e) == fn.id for e, _ in hir_walk(leaf))
+        inst = {'cast': name, 'on Reference': 'recurses into the referenced value' if selfcall else 'does something else'}
+        if selfcall:
+            c.ok(R, inst)
+        else:
+            c.bad(R, '%s:reference-not-unwrapped' % name, '%s does not unwrap Expr::Reference by recursing into the referenced value: a named (@) or recursive value loses what the cast would have kept of the value itself' % q, **inst)
+    c.floor(R, 'casts that must unwrap references', n, 8)
